@@ -138,6 +138,8 @@ def gen_c14(rnd, n, thorough=False):
                 lines += [l_a, l_b]
                 second = rnd.pick([e_b, e_b, e_b + trailer, e_b[:max(len(e_b) - rnd.randint(1, 9), 0)], e_a])
                 lines.append('decreuse %s %s %s' % (rk, hx(e_a), hx(second)))
+                # ... and after a first decode that failed (a truncated message) or was cut short
+                lines.append('decreuse %s %s %s' % (rk, hx(e_a[:rnd.randint(0, max(len(e_a) - 1, 0))]), hx(rnd.pick([e_b, e_a, e_b + trailer]))))
         cases.append({'id': 'c14-%d' % c, 'lines': lines, 'tags': {'kind': kind, 'prefixes': len(ks), 'size': min(total // 50 * 50, 500)}})
     return cases
 
